@@ -26,6 +26,8 @@ RULE = ("dates: ordinal 1, 3652059, every 1 Jan / 31 Dec / 29 Feb (sampled in qu
         "times: all carry boundaries (h, m, s, ms edges x us in {0,1,999,1000,999999}), random; "
         "datetimes: local value over the whole range incl. year 1 / 9999 edges, +-{0,1,999,1000,1001} us around the epoch and "
         "around second / day boundaries, offsets -23:59:59..+23:59:59, naive for local-* and (TZ=UTC) for timestamp-*; "
+        "local-* additionally under four other process time zones (US Eastern, Japan, Newfoundland, Central Europe: DST gaps / "
+        "folds, pre-epoch, range edges, random): stored value and read back must not depend on the zone; "
         "uuids: 0, 2^128-1, single-byte patterns, random; decimals: (precision <= 40, scale <= precision, size <= 17) accepted by "
         "parse_schema, values +-(2^(8k-1) - {0,1,2}), +-(2^(8k-1)+1), +-10^j, +-(10^j - 1), negative zero in several exponents, "
         "positive exponents, one digit too many, one fractional digit too many, one bit too large, NaN / Infinity, random; "
@@ -352,7 +354,28 @@ def make_dt(local_us, off_s):
     return naive.replace(tzinfo=D.timezone(D.timedelta(seconds=off_s)))
 
 
+class process_tz:
+    """run a block under another process time zone (TZ + tzset), then restore UTC"""
+
+    def __init__(self, zone):
+        self.zone = zone
+
+    def __enter__(self):
+        if self.zone:
+            os.environ["TZ"] = self.zone
+            time.tzset()
+
+    def __exit__(self, *a):
+        os.environ["TZ"] = "UTC"
+        time.tzset()
+
+
 def eval_ts(case):
+    with process_tz(case.get("tz")):
+        return _eval_ts(case)
+
+
+def _eval_ts(case):
     import fastavro._logical_writers_py as LW
     name = case["type"]
     mk, schema, naive = TS_KINDS[name]
@@ -480,6 +503,65 @@ def run_timestamps(ctx, q):
     ctx.sample(dict(datetime=repr(pre), timestamp_millis=dec_long(wr(TS_KINDS["timestamp-millis"][1], pre))[0],
                     read_back=repr(rd(TS_KINDS["timestamp-millis"][1], wr(TS_KINDS["timestamp-millis"][1], pre)))))
     ctx.notes["datetimes"] = total
+
+
+# local-timestamp-* must not depend on the process time zone ("regardless of what specific time zone is considered
+# local"): the same naive datetimes under other POSIX zones, incl. DST gaps / folds, pre-epoch values, range edges
+ZONES = ["EST5EDT,M3.2.0,M11.1.0", "JST-9", "NST3:30NDT,M3.2.0,M11.1.0", "CET-1CEST,M3.5.0,M10.5.0/3"]
+
+
+def gen_zone_values(ctx):
+    rng = ctx.rng
+    vals = {0, 1, -1, 999, 1000, -999, -1000, -1001, DAY_US, -DAY_US, DT_MIN, DT_MIN + 1, DT_MAX, DT_MAX - 999,
+            DT_MIN + DAY_US, DT_MAX - DAY_US}
+    walls = [D.datetime(2021, 3, 14, 2, 30), D.datetime(2021, 3, 14, 1, 59, 59, 999999), D.datetime(2021, 3, 14, 3, 0),
+             D.datetime(2021, 11, 7, 1, 30), D.datetime(2021, 11, 7, 0, 59, 59, 999999), D.datetime(2021, 11, 7, 2, 0),
+             D.datetime(2021, 3, 28, 2, 30), D.datetime(2021, 10, 31, 2, 30), D.datetime(2021, 3, 14, 2, 0, 0, 1),
+             D.datetime(2021, 11, 7, 1, 0, 0, 500), D.datetime(1969, 12, 31, 23, 59, 59, 999000), D.datetime(1903, 7, 4, 6, 0, 0, 5000),
+             D.datetime(2500, 1, 1, 0, 0, 0, 1000), D.datetime(2024, 2, 29, 12, 34, 56, 789012), D.datetime(1970, 1, 1, 9),
+             D.datetime(1969, 12, 31, 15), D.datetime(1970, 1, 1, 3, 30), D.datetime(2038, 1, 19, 3, 14, 8)]
+    for w in walls:
+        vals.add((w - EPOCH_NAIVE) // US)
+    for _ in range(40 if ctx.quick() else 3000):
+        c = rng.randrange(4)
+        if c == 0:
+            vals.add(rng.randrange(DT_MIN, DT_MAX + 1))
+        elif c == 1:
+            vals.add(rng.randrange(-3 * 10 ** 15, 0))                       # pre-epoch, within a century
+        elif c == 2:
+            vals.add(rng.randrange(0, 3 * 10 ** 15))
+        else:                                                               # around a US / EU transition of a random year
+            y = rng.randrange(1971, 2037)
+            w = D.datetime(y, rng.choice([3, 11, 10]), rng.randrange(1, 29), rng.choice([0, 1, 2, 3]), rng.randrange(60),
+                           rng.randrange(60), rng.choice([0, 1, 999, 1000, 999999]))
+            vals.add((w - EPOCH_NAIVE) // US)
+    return sorted(vals)
+
+
+def run_local_zones(ctx, q):
+    planned = []
+    vals = gen_zone_values(ctx)
+    for zone in ZONES:
+        for name in ("local-timestamp-millis", "local-timestamp-micros"):
+            mk = TS_KINDS[name][0]
+            cases = [dict(kind="timestamp", type=name, local_us=v, offset_s=None, tz=zone) for v in vals]
+            try:
+                with process_tz(zone):
+                    evald = [_eval_ts(c) for c in cases]
+            finally:
+                os.environ["TZ"] = "UTC"
+                time.tzset()
+            planned.append((name, cases, evald, q.add("c_ts %d" % mk, [z(e[0]) for e in evald])))
+    yield
+    for name, cases, evald, job in planned:
+        for c, (t, impl, ok, why), m in zip(cases, evald, job[3]):
+            mw, mr = m.split("|")
+            mdl = dict(prep=int(mw), wire=int(mw), back=int(mr) if mr != "ERR" else "raised")
+            c["instant_us"] = t
+            report(ctx, "corr:%s/other-process-zones" % name, c, (name, t, c["tz"]), impl, mdl, ok,
+                   None if ok else "process TZ=%s: %s" % (c["tz"], why), "C16:%s:depends-on-process-time-zone" % name)
+    ctx.notes["process_time_zones_for_local_timestamps"] = ZONES
+    ctx.notes["local_timestamp_values_per_zone"] = len(vals)
 
 
 # ------------------------------------------------------------------ uuids
@@ -918,7 +1000,7 @@ def run(ctx):
     phases = {}
     q = ModelQueue()
     t0 = time.time()
-    gens = [fn(ctx, q) for fn in (run_dates, run_times, run_timestamps, run_uuids, run_decimals)]
+    gens = [fn(ctx, q) for fn in (run_dates, run_times, run_timestamps, run_local_zones, run_uuids, run_decimals)]
     for g in gens:
         next(g)                          # generate the cases, register the model batches
     phases["generate"] = round(time.time() - t0, 1)
